@@ -76,6 +76,22 @@ Proof.
   repeat first [apply Linv_set_kept | apply Linv_transact | apply Linv_set_hist]; exact HL.
 Qed.
 
+Lemma follow_on_flight_ledger (t : traveller) f now taxi debit t' bac pd :
+  follow_on_flight t f now taxi debit = inl (t', bac, pd) ->
+  t_ledger t' = flight_entries f now taxi debit ++ t_ledger t /\ (Linv t -> Linv t').
+Proof.
+  unfold follow_on_flight. destruct (add_flight (t_hist t) f) as [h'|]; [|discriminate].
+  unfold flight_entries. destruct debit; [destruct (kneb N taxi (k0 N))|];
+  intros E; injection E as <- _ _; cbn [t_ledger transact set_hist app];
+  (split; [reflexivity|]); intros H;
+  repeat first [apply Linv_transact | apply Linv_set_hist]; exact H.
+Qed.
+
+Lemma checkin_one_ledger first (t : traveller) f now taxi debit t' bac pd :
+  checkin_one first t f now taxi debit = inl (t', bac, pd) ->
+  t_ledger t' = flight_entries f now taxi debit ++ t_ledger t /\ (Linv t -> Linv t').
+Proof. destruct first; [apply submit_flight_ledger|apply follow_on_flight_ledger]. Qed.
+
 (** the whole check-in, correct-balances option off: exactly the flights' debits, in order *)
 Fixpoint checkin_entries (fs : list flight) (now : Z) (taxi : K) (debit : bool) : list tx :=
   match fs with
@@ -83,27 +99,37 @@ Fixpoint checkin_entries (fs : list flight) (now : Z) (taxi : K) (debit : bool) 
   | f :: r => checkin_entries r now taxi debit ++ flight_entries f now taxi debit
   end.
 
-Lemma submit_loop_ledger fs : forall (t : traveller) pc now p debit t' pc',
+Lemma submit_loop_from_ledger fs : forall first (t : traveller) pc now p debit t' pc',
+  has_bit (pAlgo p) pamCorrectBalances = false ->
+  submit_loop_from first t pc fs now p debit = inl (t', pc') ->
+  t_ledger t' = checkin_entries fs now (pTaxi p) debit ++ t_ledger t.
+Proof.
+  induction fs as [|f r IH]; intros first t pc now p debit t' pc' Hopt; cbn [submit_loop_from checkin_entries].
+  - intros E; injection E as <- _. reflexivity.
+  - destruct (checkin_one first t f now (pTaxi p) debit) as [[[t1 bac] pd]|] eqn:Es; [|discriminate].
+    rewrite Hopt. cbn [andb]. intros E. rewrite (IH _ _ _ _ _ _ _ _ Hopt E).
+    destruct (checkin_one_ledger _ _ _ _ _ _ _ _ _ Es) as [-> _]. rewrite app_assoc. reflexivity.
+Qed.
+
+Lemma submit_loop_ledger fs (t : traveller) pc now p debit t' pc' :
   has_bit (pAlgo p) pamCorrectBalances = false ->
   submit_loop t pc fs now p debit = inl (t', pc') ->
   t_ledger t' = checkin_entries fs now (pTaxi p) debit ++ t_ledger t.
-Proof.
-  induction fs as [|f r IH]; intros t pc now p debit t' pc' Hopt; cbn [submit_loop checkin_entries].
-  - intros E; injection E as <- _. reflexivity.
-  - destruct (submit_flight t f now (pTaxi p) debit) as [[[t1 bac] pd]|] eqn:Es; [|discriminate].
-    rewrite Hopt. cbn [andb]. intros E. rewrite (IH _ _ _ _ _ _ _ Hopt E).
-    destruct (submit_flight_ledger _ _ _ _ _ _ _ _ Es) as [-> _]. rewrite app_assoc. reflexivity.
-Qed.
+Proof. apply submit_loop_from_ledger. Qed.
 
-Lemma submit_loop_Linv fs : forall (t : traveller) pc now p debit t' pc',
-  Linv t -> submit_loop t pc fs now p debit = inl (t', pc') -> Linv t'.
+Lemma submit_loop_from_Linv fs : forall first (t : traveller) pc now p debit t' pc',
+  Linv t -> submit_loop_from first t pc fs now p debit = inl (t', pc') -> Linv t'.
 Proof.
-  induction fs as [|f r IH]; intros t pc now p debit t' pc' HL; cbn [submit_loop].
+  induction fs as [|f r IH]; intros first t pc now p debit t' pc' HL; cbn [submit_loop_from].
   - intros E; injection E as <- _. exact HL.
-  - destruct (submit_flight t f now (pTaxi p) debit) as [[[t1 bac] pd]|] eqn:Es; [|discriminate].
-    destruct (submit_flight_ledger _ _ _ _ _ _ _ _ Es) as [_ H1]. intros E. eapply IH; [|exact E].
+  - destruct (checkin_one first t f now (pTaxi p) debit) as [[[t1 bac] pd]|] eqn:Es; [|discriminate].
+    destruct (checkin_one_ledger _ _ _ _ _ _ _ _ _ Es) as [_ H1]. intros E. eapply IH; [|exact E].
     destruct (_ && _); [apply Linv_transact|]; auto.
 Qed.
+
+Lemma submit_loop_Linv fs (t : traveller) pc now p debit t' pc' :
+  Linv t -> submit_loop t pc fs now p debit = inl (t', pc') -> Linv t'.
+Proof. apply submit_loop_from_Linv. Qed.
 
 (** with the correct-balances option every extra entry is a balance adjustment: the debits are exactly
     the flights' (all other entries filtered out) *)
